@@ -323,7 +323,7 @@ impl Clone for Ldap {
 // (locator L7) as functions taking the flag by `&mut` (recorded substitution `flag = true` -> `*flag = true`); the inner
 // `set.into_iter().map(|v| OctetString(v)).collect()` over a HashSet is a recorded idiom ("the values as OCTET STRINGs, in
 // the set's iteration order").  Decided: RFC 4511 4.6 / 4.7 shape of one change / one attribute, the operation numbers,
-// and when the "no values" flag is raised.  NOT decided: the surrounding request ([APPLICATION 6]/[8], the DN, the list).
+// and when the "no values" flag is raised; since round 3 also the enclosing functions (end of this file).
 pub struct AV { pub b: Vec<u8> }      // an attribute name or value (`S: AsRef<[u8]>`)
 impl AV { pub fn as_ref(&self) -> (r: &[u8]) ensures r@ == self.b@ { self.b.as_slice() } }
 pub struct HashSet { pub g: u8 }      // HashSet<S>
@@ -408,5 +408,110 @@ pub open spec fn mod_vals(m: Mod) -> Seq<T> { match m { Mod::Add(_, s) => s.valu
         *final(any_empty) == (*old(any_empty) || vals.count() == 0), //# C02.add_flags_an_attribute_without_values
 //@end
 
+
+// ---- the ENCLOSING functions add / modify: the closure over the whole list is replaced (R12) by the captured flag, and
+// `list.into_iter().map(closure).collect()` is a verified loop over the lifted closure body above -------------------------
+pub open spec fn change_tree(m: Mod) -> T { t_seq(seq![t_enum(mod_op(m)), t_seq(seq![t_os(mod_attr(m)), t_set(mod_vals(m))])]) }
+pub open spec fn change_trees(ms: Seq<Mod>, n: nat) -> Seq<T> decreases n { if n == 0 || n > ms.len() { Seq::<T>::empty() } else { change_trees(ms, (n - 1) as nat).push(change_tree(ms[n - 1])) } }
+pub open spec fn any_add_without_values(ms: Seq<Mod>, n: nat) -> bool { exists|j: int| 0 <= j < n && j < ms.len() && (#[trigger] ms[j] matches Mod::Add(_, s) && s.count() == 0) }
+// RFC 4511 4.6: ModifyRequest ::= [APPLICATION 6] SEQUENCE { object LDAPDN, changes SEQUENCE OF change }
+pub open spec fn spec_modify(dn: Seq<u8>, ms: Seq<Mod>) -> T { t_app_c(6, seq![t_os(dn), t_seq(change_trees(ms, ms.len()))]) }
+pub struct TagList { pub v: Vec<Tag> }
+impl TagList { pub fn collect(self) -> (r: Vec<Tag>) ensures r == self.v { self.v } }
+pub trait ModIterExt: Sized { fn verif_map_changes(self, flag: &mut bool) -> TagList; }
+pub fn map_changes(mods: Vec<Mod>, flag: &mut bool) -> (o: TagList)
+    ensures trees(o.v@, o.v@.len()) == change_trees(mods@, mods@.len()),
+        *final(flag) == (*old(flag) || any_add_without_values(mods@, mods@.len())),
+{
+    let mut out: Vec<Tag> = Vec::new();
+    let ghost f0 = *flag;
+    let ghost all = mods@;
+    for m in it: mods
+        invariant it.seq() == all, out@.len() == it.index@,
+            trees(out@, out@.len()) == change_trees(all, it.index@ as nat),
+            *flag == (f0 || any_add_without_values(all, it.index@ as nat)),
+    {
+        let ghost before = out@;
+        let ghost fb = *flag;
+        let t = modify_change(m, flag);
+        out.push(t);
+        proof {
+            lemma_trees_len(before, before.len());
+            lemma_trees_len(out@, out@.len());
+            assert(trees(out@, out@.len()) =~= trees(before, before.len()).push(tree(t)));
+            assert(all[it.index@] == m);
+            if *flag && !fb { assert(all[it.index@] matches Mod::Add(_, s) && s.count() == 0); }
+        }
+    }
+    TagList { v: out }
+}
+impl Ldap {
+//@lift name=modify file=src/ldap.rs impl="impl\s+Ldap\s*\{" fn=modify
+//@ sub "fn modify<S: AsRef<[u8]> + Eq + Hash>(" => "fn modify("
+//@ sub "mods: Vec<Mod<S>>," => "mods: Vec<Mod>,"
+//@ arg ".map(|m|" => "&mut any_add_empty"
+//@ sub "mods\n                        .into_iter()\n                        .map(&mut any_add_empty)" => "map_changes(mods, &mut any_add_empty)"
+//@ ret r
+//@ insert after-let req
+        proof { tree_lemmas::lemma_trees2(req->Sequence_0.inner@, 2); }
+//@ spec
+    ensures
+        any_add_without_values(mods@, mods@.len()) ==> (r matches Err(LdapError::AddNoValues)) && sent_none(*old(self), *final(self)), //# C02.modify_with_a_valueless_add_is_refused_before_anything_is_sent
+        (!any_add_without_values(mods@, mods@.len()) && !(r matches Err(LdapError::OpSend))) ==> sent_one(*old(self), *final(self)) && sent(*final(self)).op is Single
+            && tree(sent(*final(self)).req) == spec_modify(dn.spec_bytes(), mods@)
+            && sent(*final(self)).controls == old(self).controls, //# C02.modify_request_rfc4511_4.6
+//@end
+}
+
+// RFC 4511 4.7: AddRequest ::= [APPLICATION 8] SEQUENCE { entry LDAPDN, attributes SEQUENCE OF Attribute }
+pub open spec fn attr_tree(a: (AV, HashSet)) -> T { t_seq(seq![t_os(a.0.b@), t_set(a.1.value_trees())]) }
+pub open spec fn attr_trees(s: Seq<(AV, HashSet)>, n: nat) -> Seq<T> decreases n { if n == 0 || n > s.len() { Seq::<T>::empty() } else { attr_trees(s, (n - 1) as nat).push(attr_tree(s[n - 1])) } }
+pub open spec fn any_attr_without_values(s: Seq<(AV, HashSet)>, n: nat) -> bool { exists|j: int| 0 <= j < n && j < s.len() && (#[trigger] s[j]).1.count() == 0 }
+pub open spec fn spec_add(dn: Seq<u8>, attrs: Seq<(AV, HashSet)>) -> T { t_app_c(8, seq![t_os(dn), t_seq(attr_trees(attrs, attrs.len()))]) }
+pub fn map_attributes(attrs: Vec<(AV, HashSet)>, flag: &mut bool) -> (o: TagList)
+    ensures trees(o.v@, o.v@.len()) == attr_trees(attrs@, attrs@.len()),
+        *final(flag) == (*old(flag) || any_attr_without_values(attrs@, attrs@.len())),
+{
+    let mut out: Vec<Tag> = Vec::new();
+    let ghost f0 = *flag;
+    let ghost all = attrs@;
+    for a in it: attrs
+        invariant it.seq() == all, out@.len() == it.index@,
+            trees(out@, out@.len()) == attr_trees(all, it.index@ as nat),
+            *flag == (f0 || any_attr_without_values(all, it.index@ as nat)),
+    {
+        let ghost before = out@;
+        let ghost fb = *flag;
+        let ghost cur = a;
+        let (name, vals) = a;
+        let t = add_attribute(name, vals, flag);
+        out.push(t);
+        proof {
+            lemma_trees_len(before, before.len());
+            lemma_trees_len(out@, out@.len());
+            assert(trees(out@, out@.len()) =~= trees(before, before.len()).push(tree(t)));
+            assert(all[it.index@] == cur);
+            if *flag && !fb { assert(all[it.index@].1.count() == 0); }
+        }
+    }
+    TagList { v: out }
+}
+impl Ldap {
+//@lift name=add file=src/ldap.rs impl="impl\s+Ldap\s*\{" fn=add
+//@ sub "fn add<S: AsRef<[u8]> + Eq + Hash>(" => "fn add("
+//@ sub "attrs: Vec<(S, HashSet<S>)>," => "attrs: Vec<(AV, HashSet)>,"
+//@ arg ".map(|(name, vals)|" => "&mut any_empty"
+//@ sub "attrs\n                        .into_iter()\n                        .map(&mut any_empty)" => "map_attributes(attrs, &mut any_empty)"
+//@ ret r
+//@ insert after-let req
+        proof { tree_lemmas::lemma_trees2(req->Sequence_0.inner@, 2); }
+//@ spec
+    ensures
+        any_attr_without_values(attrs@, attrs@.len()) ==> (r matches Err(LdapError::AddNoValues)) && sent_none(*old(self), *final(self)), //# C02.add_with_a_valueless_attribute_is_refused_before_anything_is_sent
+        (!any_attr_without_values(attrs@, attrs@.len()) && !(r matches Err(LdapError::OpSend))) ==> sent_one(*old(self), *final(self)) && sent(*final(self)).op is Single
+            && tree(sent(*final(self)).req) == spec_add(dn.spec_bytes(), attrs@)
+            && sent(*final(self)).controls == old(self).controls, //# C02.add_request_rfc4511_4.7
+//@end
+}
 } // verus!
 fn main() {}
